@@ -784,7 +784,38 @@ func (P *Prog) checkSelection(r *Result) {
 			switch x := in.(type) {
 			case *ssa.MapUpdate:
 				if !isSchemaMap(x.Map.Type()) {
+					// a key put into a local set of names (`omitted[name] = struct{}{}`): a key operation
+					if mk, isMk := cv(x.Map).(*ssa.MakeMap); isMk && mk.Parent() == in.Parent() {
+						if mt, ok := mk.Type().Underlying().(*types.Map); ok && types.Identical(mt.Key().Underlying(), types.Typ[types.String]) {
+							var probs []string
+							named, tested := keyOK(x.Key, in)
+							if !named {
+								probs = append(probs, "a key not named by the arguments is selected at "+P.ipos(in))
+							}
+							if !tested {
+								probs = append(probs, "a key of a map[string]bool argument is used without testing its boolean value ("+P.ipos(in)+")")
+							}
+							if b, isB := constBool(cv(x.Value)); isB && !b {
+								probs = append(probs, "a key is entered into the selection set as false ("+P.ipos(in)+")")
+							}
+							return []pathItem{{kind: "MARK", val: strings.Join(probs, "; "), in: in, aux: mk}}
+						}
+					}
 					return nil
+				}
+				// `for k, s := range src { dst[k] = s }` is maps.Copy(dst, src) written out; under a membership
+				// test of the key in a local set (`if _, gone := omitted[k]; !gone`) it is a filtered copy
+				if src := rangedMapOf(x.Key, x.Value); src != nil && isSchemaMap(src.Type()) {
+					v := "other"
+					if fromRecvSchema(src) {
+						v = "recv"
+					} else if fromArg(src) {
+						v = "arg"
+					}
+					if how, set := localSetFilter(in.Block(), x.Key); how != "" {
+						return []pathItem{{kind: "COPY-FILTERED", val: v + ":" + how, in: in, aux: set}}
+					}
+					return []pathItem{{kind: "COPY", val: v, in: in}}
 				}
 				var probs []string
 				named, tested := keyOK(x.Key, in)
@@ -832,6 +863,52 @@ func (P *Prog) checkSelection(r *Result) {
 			r.undecided("C16/selection", name, P.pos(fn.Pos()), "too many paths to enumerate")
 			continue
 		}
+		// copies made by a written-out loop are seen on the paths that end at the loop's back edge
+		loopCopies := map[string]bool{}
+		marks := map[ssa.Value][]ssa.Instruction{}
+		type fcopy struct {
+			how string
+			set ssa.Value
+			in  ssa.Instruction
+		}
+		var filtered []fcopy
+		for _, p := range res.paths {
+			for _, it := range p.items {
+				switch it.kind {
+				case "COPY":
+					if p.end == "LOOP-BACK" {
+						loopCopies[it.val] = true
+					}
+				case "MARK":
+					keyOps[it.in] = true
+					if it.val != "" {
+						bad = append(bad, it.val)
+					}
+					marks[it.aux] = append(marks[it.aux], it.in)
+				case "COPY-FILTERED":
+					filtered = append(filtered, fcopy{it.val, it.aux, it.in})
+				}
+			}
+		}
+		// a filtered copy of the receiver's fields is the selection itself: keeping the marked keys (Pick) or
+		// dropping them (Omit); the set must have been filled from the arguments before the copy runs
+		filteredOK := ""
+		for _, fc := range filtered {
+			want := map[string]string{"Pick": "recv:in", "Omit": "recv:out"}[name]
+			switch {
+			case fc.how != want:
+				bad = append(bad, "the receiver's fields are copied under the wrong membership test ("+fc.how+") at "+P.ipos(fc.in))
+			case len(marks[fc.set]) == 0:
+				bad = append(bad, "the set the copy is filtered by is never filled from the arguments ("+P.ipos(fc.in)+")")
+			default:
+				for _, mk := range marks[fc.set] {
+					if !instrBeforeOrReach(mk, fc.in) {
+						bad = append(bad, "the copy at "+P.ipos(fc.in)+" can run before the selection set is complete")
+					}
+				}
+				filteredOK = fc.how
+			}
+		}
 		for _, p := range res.paths {
 			if p.end == "PANIC" {
 				continue
@@ -862,17 +939,18 @@ func (P *Prog) checkSelection(r *Result) {
 			if p.end != "RETURN" {
 				continue
 			}
+			recvCopied = recvCopied || loopCopies["recv"]
 			switch name {
 			case "Pick":
 				if recvCopied {
 					bad = append(bad, "Pick copies all of the receiver's fields")
 				}
 			case "Omit":
-				if !recvCopied {
+				if !recvCopied && filteredOK != "recv:out" {
 					bad = append(bad, "Omit does not start from a copy of all the receiver's fields")
 				}
 			case "Extend":
-				if !recvCopied || !argCopied {
+				if !recvCopied || !(argCopied || loopCopies["arg"]) {
 					bad = append(bad, "Extend does not copy both the receiver's fields and the given fields")
 				}
 			}
@@ -895,6 +973,60 @@ func (P *Prog) checkSelection(r *Result) {
 		}
 	}
 	r.floor("C16/selection", 3)
+}
+
+// localSetFilter: block b runs only when the key is (how = "in") or is not (how = "out") a member of a map
+// made in the same function: `if _, ok := set[k]; ok`, `if set[k]`, and their negations.
+func localSetFilter(b *ssa.BasicBlock, key ssa.Value) (how string, set ssa.Value) {
+	for _, gd := range guardsOf(b) {
+		c, neg := condKey(gd.If.Cond)
+		member := gd.True != neg
+		var lk *ssa.Lookup
+		switch x := cv(c).(type) {
+		case *ssa.Extract:
+			if l, ok := x.Tuple.(*ssa.Lookup); ok && l.CommaOk && x.Index == 1 {
+				lk = l
+			}
+		case *ssa.Lookup:
+			if !x.CommaOk {
+				lk = x
+			}
+		}
+		if lk == nil || !sameValue(lk.Index, key) {
+			continue
+		}
+		mk, ok := cv(lk.X).(*ssa.MakeMap)
+		if !ok || mk.Parent() != b.Parent() {
+			continue
+		}
+		if member {
+			return "in", mk
+		}
+		return "out", mk
+	}
+	return "", nil
+}
+
+// rangedMapOf: key and val are the key and the value of one and the same iteration of a range over a map;
+// returns that map.
+func rangedMapOf(key, val ssa.Value) ssa.Value {
+	ek, ok1 := cv(key).(*ssa.Extract)
+	ev, ok2 := cv(val).(*ssa.Extract)
+	if !ok1 || !ok2 || ek.Tuple != ev.Tuple || ek.Index != 1 || ev.Index != 2 {
+		return nil
+	}
+	nx, ok := ek.Tuple.(*ssa.Next)
+	if !ok || nx.IsString {
+		return nil
+	}
+	rg, ok := nx.Iter.(*ssa.Range)
+	if !ok {
+		return nil
+	}
+	if _, isMap := rg.X.Type().Underlying().(*types.Map); !isMap {
+		return nil
+	}
+	return rg.X
 }
 
 // sliceElemSources: for a value read out of a slice (s[i]), the values the
